@@ -119,6 +119,9 @@ func truthCell(a arrow.Array, i int) tcell {
 		return tcell{kind: "ival", mo: v.Months, dy: v.Days, ns: v.Nanoseconds}
 	case *array.Time64:
 		return tcell{kind: "time64", ns: int64(c.Value(i)), text: c.DataType().(*arrow.Time64Type).Unit.String()}
+	case *array.Dictionary:
+		// dictionary-encoded column (DuckDB ENUM; x-arc-arrow-dictionary): the value it stands for
+		return truthCell(c.Dictionary(), c.GetValueIndex(i))
 	case *array.List:
 		st, en := c.ValueOffsets(i)
 		vals := c.ListValues()
